@@ -507,8 +507,8 @@ def enum_actions(meta, tier, sel):
             continue
         ns, nw = sh['ns'], sh['nw']
         for semodes in itertools.product((0, 1, 2), repeat=ns):
-            if semodes.count(2) > 1:
-                continue
+            if semodes.count(2) > 1 or (2 in semodes and sh['fn'] == 'v'):
+                continue   # nested calls always target v; an expectation on v never nests (no call cycles)
             for wacc in itertools.product((True, False), repeat=nw):
                 if sel.skip(): continue
                 c = Ctx(meta)
@@ -618,14 +618,14 @@ PLAN = {
     'C01': ['accept', 'forbid'],
     'C02': ['seq_overlap', 'forbid'],
     'C03': ['bounds'],
-    'C04': ['lifetime'],
+    'C04': ['lifetime', 'bounds'],
     'C05': ['seq_own', 'seq_mon', 'seq_overlap'],
     'C06': ['seq_teardown', 'seq_own'],
     'C07': ['forbid'],
     'C08': ['actions'],
     'C13': ['deathwatch', 'seq_mon'],
     'C14': ['destruction', 'lifetime'],
-    'C15': ['lifetime', 'forbid', 'seq_teardown'],
+    'C15': ['lifetime', 'forbid', 'seq_teardown', 'bounds'],
     'C16': ['forbid', 'seq_overlap'],
     'C17': ['tracers'],
 }
